@@ -7,6 +7,9 @@ import DL.Model.Codec
 import DL.Gen.Particles
 import DL.Gen.Models
 import DL.Gen.Grammar
+import DL.Gen.ClassState
+import DL.Gen.Sinks
+import DL.Gen.SpinTable
 open DL DL.Sexp
 
 def bad (why : String) : Sexp := tag "bad-op" [.atom why]
@@ -185,6 +188,30 @@ def handle (x : Sexp) : Sexp :=
         | .error .unknownPdgName => tag "err" [.atom "UnknownPdgName"]
         | .error .zeroDivision => tag "err" [.atom "ZeroDivisionError"])
     | _, _, _ => bad "print_rows"
+  -- L7
+  | .list [.atom "perms", s, fs] => match s.asStrs, fs.asStrs with
+    | some s, some fs => (match listStructure s fs with
+      | .ok l => ok (.list (l.map fun a => .list (a.map nat)))
+      | .error _ => tag "err" [.atom "RuntimeError"])
+    | _, _ => bad "perms"
+  | .list [.atom "amp_read", pol, table, st, stmts] =>
+    match (match pol with | .atom "gen" => some Gen.resetPolicy | p => decPolicy p), decPairs table, decRState st,
+          stmts.asList.bind (·.mapM decAStmt) with
+    | some pol, some tb, some st, some stmts =>
+      (match readAmpgen pol (fun n => dget tb n) st stmts with
+      | .ok (out, st') => ok (.list [encReadOut out, encRState st'])
+      | .error e => encAmpErr e)
+    | _, _, _, _ => bad "amp_read"
+  | .list [.atom "emit_amp", n, fs] => match decGNodeA n, fs.asStrs with
+    | some n, some fs => (match emitAmp Gen.knownSpinFactors n fs with
+      | .ok a => ok (encAmpOut a)
+      | .error e => encEmitErr e)
+    | _, _ => bad "emit_amp"
+  | .list [.atom "lex_model", names, .atom text] => match names.asStrs with
+    | some ns => (match lexModel ns text.toList with
+      | some (m, rest) => ok (.list [.atom m, .atom (String.ofList rest)])
+      | none => ok (.atom "N"))
+    | none => bad "lex_model"
   | .list [.atom "fmtg7", .atom q] => match decRat q with
     | some q => ok (.atom (fmtG7 q))
     | none => bad "fmtg7"
